@@ -22,6 +22,7 @@ META = {
     "assumptions": ["the user's predicate is a pure function of the item"],
     "not_decided": "that the kept-index list is sorted at all times (partition_point's precondition) and applicability of every emitted diff (arithmetic)",
 }
+META["explanation"] += ' R10.9 the constructors number the initial items with enumerate() applied below any filter (positions in the source, not in the filtered output).'
 
 PAIR = lambda n: re.sub(r"_filter(_map)?$", "", n or "")
 
@@ -230,7 +231,7 @@ def shift_loops(b):
     """[(sign, skip_expr|None, loc)] for `for idx in filtered_indices.iter_mut()[.skip(k)] { *idx +-= 1 }`"""
     out = []
     for loc, s in b.iter_stmts():
-        if s["k"] == "assign" and s["place"]["proj"] == ["deref"] and "&mut usize" in b.locals[s["place"]["l"]]["ty"]:
+        if s["k"] == "assign" and s["place"]["proj"] == ["deref"] and ("&mut usize" in b.locals[s["place"]["l"]]["ty"] or b.locals[s["place"]["l"]]["ty"] == "?"):
             e = b.expr_of_rv(s["rv"], 8, ())
             adds = find_all(e, lambda y: y[0] == "bin" and re.match(r"(Add|Sub)", y[1]))
             if not adds or not is_const_int(adds[0][3], 1):
@@ -248,7 +249,7 @@ def r10_4(ctx, handlers):
     n = 0
     want = {"PushFront": ("+", False), "PopFront": ("-", False), "Insert": ("+", True), "Remove": ("-", True)}
     for key, (h, vs) in handlers.items():
-        b = inl(ctx.facts, h)
+        b = inl(ctx.facts, h, desugar=True)   # `iter_mut().for_each(|i| *i += 1)` is the same loop as `for i in iter_mut() { *i += 1 }`
         loops = shift_loops(b)
         for v in sorted(vs):
             n += 1
@@ -352,6 +353,25 @@ def r10_7(ctx):
                         "`%s` initialises the recorded source length with `%s`%s: it must be the length of the unfiltered source, otherwise every later length-dependent diff gets wrong source indices" % (
                             f.path, fmt(e, 4), " after the vector was filtered in place" if early else ", which is not the given vector"))
     ctx.floor("R10.7", n, 2)
+    # R10.9 the initial kept indices are positions in the *unfiltered* input: the enumeration sits below the filter
+    POS_CHANGING = r"Iterator>?::(filter|filter_map|skip|skip_while|take_while|step_by|rev|flat_map|flatten|chain|dedup|scan|map_while)$"
+    for f in F.find(crate=UT, name="new"):
+        if not re.match(r"vector::filter::(Filter|FilterMap)::<", f.path) or not f.built:
+            continue
+        b = f.built
+        for loc, s in b.iter_stmts():
+            if not (s["k"] == "assign" and s["rv"]["k"] == "agg" and s["rv"].get("adt") == "vector::filter::FilterImpl"):
+                continue
+            e = b.expr_of_op(s["rv"]["ops"][s["rv"]["fields"].index("filtered_indices")])
+            enums = find_all(e, lambda y: y[0] == "call" and ecall_matches(y, r"Iterator>?::enumerate$"))
+            where = b.line_at(loc)
+            if not enums:
+                ctx.undecided("R10.9", f, "initial-indices-enumerate-the-source", where, "no enumerate() in the provenance of filtered_indices: %s" % fmt(e, 4))
+                continue
+            below = find_all(enums[0][3][0], lambda y: y[0] == "call" and isinstance(y[1], str) and re.search(POS_CHANGING, y[1]))
+            ctx.verdict(not below, "R10.9", f, "initial-indices-enumerate-the-source", where, "enumerate() is applied to the unfiltered input",
+                        "`%s` numbers the initial items with enumerate() *after* `%s`: the recorded indices are positions in the filtered output, not in the source, so every later positional diff is mapped to the wrong item" % (
+                            f.path, below[0][1].split("::")[-1] if below else ""))
 
 
 def r10_8(ctx):
